@@ -8,6 +8,7 @@ from typing import Any, Dict, List, Optional, Tuple
 
 from harness.lib.core import VERIF, Ctx, Rng, lean_lock, run_driver, shrink_ops
 from harness.extract import reward as x_reward
+from harness.extract import reward_graph as x_reward_graph
 from harness.rigs import reward as rig
 
 MANIFEST = {
@@ -37,14 +38,21 @@ MANIFEST = {
             "PrimaiteGame.update_agents (order and step_counter guards of update_reward / save_reward_to_history / total += current) are "
             "translated too and proved equal to the model for every component behaviour / every game — which is also the contract a "
             "plugin component gets: the step reward is the weighted left fold of whatever its calculate returns, its exception ends the "
-            "step; literal defaults; blunt text flags only for setup_reward_sharing, the two graph functions, __init__ / "
+            "step; science.topological_sort and science.graph_has_cycle (nested recursive closure over set / list containers, early "
+            "returns out of loops) are translated statement by statement into a second small language and proved, for every graph and "
+            "every unfolding depth, to return exactly the model's topoSort / hasCycle (so the graph theorems are about the code as "
+            "translated on this run); the three step methods (PrimaiteGame.step, PrimaiteGymEnv.step, PrimaiteRayMARLEnv.step) are "
+            "extracted as sequences of calls and proved to tick once, to run update_agents once on a snapshot taken after the tick and "
+            "to return current_reward read after update_agents; literal defaults; blunt text flags only for setup_reward_sharing, __init__ / "
             "register_component and the two one-line agent methods. Differential rig R-rew "
             "through the real PrimaiteGame.from_config (every sharing graph on <= 4 agents; several shares per agent; cycles of every "
             "length incl. self-sharing), the real science.py functions on EVERY graph with <= 4 nodes incl. self-loops and repeated "
             "neighbours (thorough: every loop-free graph on 5 nodes), real update_agents on synthetic state dictionaries (also leaves "
             "of the wrong shape: the exception kinds are compared), resets, agents without reward function, the real "
             "access_from_nested_dict on synthetic values and on whole real describe_state() dictionaries, and real PrimaiteGymEnv / "
-            "PrimaiteGame runs with resets on the shipped and on generated scenarios. Python oracles on the implementation alone: "
+            "PrimaiteGame runs with resets on the shipped and on generated scenarios, and the real reset / step of PrimaiteRayMARLEnv on the "
+            "shipped two-defender scenarios (imported over a stub of rllib's MultiAgentEnv base class, rllib itself is not importable "
+            "here): the rewards dictionary of every step is compared with the agents' current rewards. Python oracles on the implementation alone: "
             "declared sharing graph, cycle <=> rejected, same-step shared values, weighted sum, totals per episode, and a "
             "non-interference recheck (each calculate re-run on a copy with the state cut down to its own leaf and the item fields "
             "outside its proved read-set scrambled), and a LIVE-OBJECT oracle: after every real step each component's value is "
@@ -67,7 +75,7 @@ MANIFEST = {
     "design_ref": "5/C10",
 }
 MODULES = ["PrimaiteModel.Props.C10", "PrimaiteModel.Props.C10Calc", "PrimaiteModel.Props.C10Total", "PrimaiteModel.Props.C10Float",
-           "PrimaiteModel.Props.C10Truth"]
+           "PrimaiteModel.Props.C10Truth", "PrimaiteModel.Props.C10Graph"]
 EXE = "drv_c10"
 
 
@@ -281,7 +289,7 @@ def _exhaustive_graphs(ctx: Ctx, rng: Rng):
                 yield f"graph-dup{n}", list(keys), dict(zip(names, combo))
     names = [f"n{i}" for i in range(4)]
     lists = [[]] + [[a] for a in names] + [[a, b] for a in names for b in names] + [[a, a, b] for a in names for b in names]
-    for _ in range(ctx.scale(6000, 60000)):
+    for _ in range(ctx.scale(6000, 40000)):
         yield "graph-dup4", rng.shuffle(names), {u: rng.choice(lists) for u in names}
     if ctx.thorough:
         names = [f"n{i}" for i in range(5)]
@@ -544,7 +552,7 @@ def _families(ctx: Ctx) -> List[Tuple[str, dict]]:
             cases.append(("decimal", rig.gen_game_case(rng, n, arcs, rng.shuffle(list(range(n))),
                                                        n_steps=rng.range(3, ctx.scale(12, 30)), rich=True, decimal=True)))
     # the real pipeline: PrimaiteGymEnv.step on UC2 with dyadic weights, random sticky flags and declaration order
-    for k in range(ctx.scale(2, 30)):
+    for k in range(ctx.scale(2, 24)):
         cases.append(("env", rig.gen_env_case(rng, ctx.scale(40, 128))))
     # ... on UC2 with the shipped weights (0.4 / 0.05 / 0.25 ...), on the other shipped scenarios (own weights, and dyadic ones),
     # and on generated scenarios (harness/gen/scenario.py: switched LAN, routed, firewall+DMZ)
@@ -553,13 +561,28 @@ def _families(ctx: Ctx) -> List[Tuple[str, dict]]:
     for stem in (shipped if ctx.thorough else shipped[:3] + rng.shuffle(shipped[3:])[:4]):
         for mode in (("asis", "dyadic") if ctx.thorough or stem == "uc7_config" else (rng.choice(["asis", "dyadic"]),)):
             cases.append(("env-shipped", rig.gen_env_case(rng, ctx.scale(24, 96), "shipped:" + stem, mode)))
+    # PrimaiteGame.step() itself (the third step pipeline; the environments do not call it): UC2 driven through the game loop, the RL
+    # agent given a random action of its map before every step
+    for k in range(ctx.scale(2, 6)):
+        c = rig.gen_env_case(rng, ctx.scale(40, 96), "uc2", rng.choice(["asis", "dyadic"]))
+        c["game_loop"] = True
+        c.pop("reset_at", None)
+        cases.append(("env-gameloop", c))
+    # the multi-agent environment (PrimaiteRayMARLEnv has its own step pipeline and returns a dictionary of rewards): the two shipped
+    # two-defender scenarios, with resets
+    for stem in ("data_manipulation_marl", "multi_agent_session"):
+        if stem in rig.ENV_SHIPPED:
+            c = rig.gen_env_case(rng, ctx.scale(16, 64), "shipped:" + stem, rng.choice(["asis", "dyadic"]))
+            c["marl"] = True
+            c["reset_at"] = sorted({5, ctx.scale(11, 40)})
+            cases.append(("env-marl", c))
     # shipped episode SCHEDULES: every reset builds the next episode from another configuration (real EpisodeListScheduler)
     for sd in (rig.ENV_SCHEDULES if ctx.thorough else rig.ENV_SCHEDULES[:2]):
         c = rig.gen_env_case(rng, ctx.scale(12, 40), "sched:" + sd, "asis")
         c["reset_at"] = sorted({3, 7, ctx.scale(10, 25)})
         cases.append(("env-schedule", c))
     from harness.gen.scenario import FAMILIES as GEN_FAMILIES
-    for k in range(ctx.scale(4, 40)):
+    for k in range(ctx.scale(4, 32)):
         cases.append(("env-gen", rig.gen_env_case(rng, ctx.scale(24, 64), f"gen:{rng.choice(list(GEN_FAMILIES))}:{rng.range(1, 3)}",
                                                   rng.choice(["asis", "dyadic"]))))
     # access_from_nested_dict / projection / serialisation on synthetic nested values
@@ -567,7 +590,7 @@ def _families(ctx: Ctx) -> List[Tuple[str, dict]]:
         cases.append(("access", _access_case(rng)))
     # the two science.py functions on raw graphs: random ones here (lists with repeats, dangling names); the bounded-exhaustive
     # family is streamed separately (_run_graph_bulk)
-    for k in range(ctx.scale(600, 20000)):
+    for k in range(ctx.scale(600, 12000)):
         cases.append(("rawgraph", rig.gen_raw_graph(rng)))
     return cases
 
@@ -580,6 +603,7 @@ def _kind_of(lines: List[str], i: int) -> str:
 def run(ctx: Ctx):
     with lean_lock():
         ctx.extract("Reward", x_reward.emit)
+        ctx.extract("RewardGraph", x_reward_graph.emit)   # its own file: an untranslatable graph function breaks only Props/C10Graph
         ctx.prove(MODULES, exes=[EXE], clean=False, leanchecker=ctx.thorough)
     # the blunt text ties, function by function (the Gen flags the C10_gen_shape* theorems read are computed from the same report)
     try:
@@ -631,6 +655,9 @@ def run(ctx: Ctx):
             case = dict(case, **capture["observed"])  # what the real run produced: agents, per-step states and items
             ctx.count("env-source:" + case.get("source", "uc2").split(":")[0] + ":" + case.get("weights", "dyadic"))
             ctx.count("env:resets", sum(1 for stp in case["steps"] if stp.get("reset_after")))
+            if capture.get("marl"):
+                ctx.count("env:runs through PrimaiteRayMARLEnv (rewards dictionary of every step compared)")
+                ctx.count("env:PrimaiteRayMARLEnv steps", len(case["steps"]))
             for stp in case["steps"]:  # what the real describe_state() showed the components (read off the projected dictionary)
                 for nname, nd in (stp["dict"].get("network", {}).get("nodes", {}) or {}).items():
                     if not isinstance(nd, dict):
